@@ -550,6 +550,12 @@ def _div_terms(a, b):
                     res = (Q, rest)
                     c.divcache[key] = res
                     return res
+                # -b <= rest < 0  (e.g. (k*n - d - 1) // n with 0 <= d < n):  quotient one less
+                shifted = z3.simplify(rest + zb)
+                if c.known_fast(rest < 0) and prove_lt(c, shifted, zb):
+                    res = (z3.simplify(Q - 1), shifted)
+                    c.divcache[key] = res
+                    return res
             # factor a constant out of the divisor:  a // (K*b') = (a // b') // K
             if bc > 1 and not getattr(c, '_in_factor_div', False):
                 c._in_factor_div = True
